@@ -1,0 +1,45 @@
+//go:build verif
+
+// Contracts for govc (contract-based deductive verification, see /verif/DESIGN.md).
+// Comment-only file: it adds no code and is compiled only with -tags verif.
+
+package maintenance
+
+// getDBExec returns its closure; the closure executes exactly one statement.
+//@ func getDBExec
+//@   flag returns=getDBExec$1
+//@   modifies nothing
+
+// One templated statement: on success exactly one statement was executed and
+// the version table is untouched; on any error nothing was executed.
+//@ func getDBExec$1 [C18,C19]
+//@   flag modular
+//@   modifies dbN, dbStmt, dbVer
+//@   ensures dbVer == old(dbVer)
+//@   ensures failed: result != nil ==> dbN == old(dbN) && dbStmt == old(dbStmt)
+//@   ensures one: result == nil ==> dbN == old(dbN) + 1
+//@   ensures prefix: forall j int :: 0 <= j && j < old(dbN) ==> dbStmt[j] == old(dbStmt)[j]
+
+// Splits a script file into statements (regexp based, not verified): touches nothing.
+//@ func getSQLFile
+//@   modifies nothing
+
+// Migration of one stream k.  `ver` is the version read back from the database
+// (assumed to be the recorded one); scripts ver .. len-1 are executed in order,
+// each followed by its version record, and nothing else of this stream.
+//@ spec fn created(clusterName string) int = clusterName != "" ? 2 : 1
+//@ func updateScripts [C18]
+//@   requires k >= 0
+//@   ensures up-to-date: result == nil && ver >= len(scripts) ==> dbN == old(dbN) + created(clusterName) && dbVer == old(dbVer)
+//@   ensures all-applied: result == nil && ver < len(scripts) ==> dbN == old(dbN) + created(clusterName) + 2 * (len(scripts) - ver) && dbVer[k] == max(old(dbVer)[k], len(scripts))
+//@   ensures never-ahead: dbN >= old(dbN) + created(clusterName) ==> dbVer[k] <= max(old(dbVer)[k], ver + (dbN - old(dbN) - created(clusterName)) / 2)
+//@   ensures other-streams: forall s int :: s != k ==> dbVer[s] == old(dbVer)[s]
+//@   loop 1:
+//@     modifies ver
+//@   loop 2:
+//@     invariant ver <= i && (i == ver || i <= len(scripts))
+//@     invariant dbN == old(dbN) + created(clusterName) + 2 * (i - ver)
+//@     invariant i == ver ==> dbVer == old(dbVer)
+//@     invariant i > ver ==> dbVer[k] == max(old(dbVer)[k], i)
+//@     invariant forall s int :: s != k ==> dbVer[s] == old(dbVer)[s]
+//@     modifies dbN, dbStmt, dbVer
